@@ -7,7 +7,7 @@
    followed by Print Assumptions. *)
 From SC Require Import Lib.Prelude Lib.Int Lib.Host Model.Math Model.Fungible Model.FungibleObs
   Proofs.FungibleBasics Proofs.FungibleExec Proofs.FungibleAllow Proofs.FungibleInv Proofs.FungibleObsFacts
-  Run.C02 Proofs.C02Model Proofs.C02Monitor Proofs.C02Final.
+  Run.C02 Proofs.C02Model Proofs.C02Monitor Proofs.C02Final Proofs.C02Parties.
 
 (* [state_inv] holds in every reachable state (all call sequences, all authorisation sets, all
    ledger advances); the per-call theorems are stated for any state satisfying it. *)
@@ -102,6 +102,42 @@ Theorem C02_missing_signer_no_effect : forall c s cl a,
   signer_of cl = Some a -> has_auth (call_auths cl) a = false -> step c s cl = (s, Fail, []).
 Proof. exact missing_signer_no_effect. Qed.
 Print Assumptions C02_missing_signer_no_effect.
+
+(* Special addresses as parties: NO address is privileged.  Whichever address [a] is - a user, another
+   registered contract, the token contract's own address [c_self c] - if it does not authorise the call and has
+   granted no live allowance to anybody, no call other than the RWA supervisory operations lowers its balance.
+   (Instance a := c_self c: tokens held by the token contract itself cannot be moved from outside.) *)
+Theorem C02_unsigned_account_without_allowances_keeps_its_balance : forall c s cl s' v evs a,
+  wf_cfg c = true -> state_inv s -> exec c s cl = Ok (s', v, evs) ->
+  (match cl with RForcedTransfer _ _ _ | RBurn _ _ | RRecover _ _ => false | _ => true end) = true ->
+  has_auth (call_auths cl) a = false ->
+  (forall sp, allowance (now s) (tk s) a sp = 0) ->
+  balance (tk s) a <= balance (tk s') a.
+Proof. exact unsigned_account_keeps_balance_pinned. Qed.
+Print Assumptions C02_unsigned_account_without_allowances_keeps_its_balance.
+
+(* The property for the vault's underlying asset token (a second Base token inside the model), including the one
+   place where the model lets a contract authorise for itself (the host's invoker rule: the vault paying out the
+   assets it holds).  An asset balance decreases only
+   - for the payer [from] of a deposit / mint authorised by the operator, the nested asset-token call being
+     authorised by the payer itself (operator = from: [sub] must contain it) or by an operator that holds a live
+     asset allowance from the payer, and by at most the assets named / returned; or
+   - for the vault's own address in a withdraw / redeem authorised by the operator, by at most the assets paid out. *)
+Theorem C02_vault_assets_move_only_as_authorised : forall c s cl s' v evs a, wf_cfg c = true -> c_flav c = FVault ->
+  exec c s cl = Ok (s', v, evs) -> balance (asset s') a < balance (asset s) a ->
+  let debit := balance (asset s) a - balance (asset s') a in
+  let pull_ok (sub : list addr) (from op : addr) :=
+    if N.eqb op from then has_auth sub from = true
+    else has_auth sub op = true /\ exists amt, 0 < amt <= allowance (now s) (asset s) from op in
+  match cl with
+  | VDeposit au sub assets _ f op => a = f /\ has_auth au op = true /\ pull_ok sub f op /\ debit <= assets
+  | VMint au sub _ _ f op => a = f /\ has_auth au op = true /\ pull_ok sub f op /\ debit <= v
+  | VWithdraw au assets _ _ op => a = c_self c /\ has_auth au op = true /\ debit <= assets
+  | VRedeem au _ _ _ op => a = c_self c /\ has_auth au op = true /\ debit <= v
+  | _ => False
+  end.
+Proof. exact vault_asset_debits. Qed.
+Print Assumptions C02_vault_assets_move_only_as_authorised.
 
 (* The executable monitor (the property as a boolean over observations) accepts every run of the
    model, and the model's diff with itself is empty. *)
@@ -274,4 +310,50 @@ Example C02_monitor_rejects_malformed_or_drifting_observations :
   c02_why (T [mint100; (Advance 5, Ok 0, [], mk 105 7 (B 100 900 0) [])]) = (2%N, 6%N) /\
   c02_why (T [mint100; (Transfer [1%N] 0%N 2%N None 5, Fail, [], mk 100 100 (B 100 0 5) [])]) = (2%N, 6%N) /\
   c02_why {| t_cfg := cf FBase 0; t_univ := ex_univ; t_start := 100; t_init := mk 100 0 (B 0 0 0) [((0%N,1%N),((40,120),120))]; t_items := [] |} = (1%N, 9%N).
+Proof. vm_compute. repeat split. Qed.
+
+(* ---- follow-up: special addresses as parties ---- *)
+(* the token contract's own address (3) and another contract that authorises as the direct invoker (5) hold
+   tokens and allowances: the contract's own tokens cannot be moved from outside whoever signs; the other
+   contract transfers, approves, spends an allowance exactly when it is among the authorising addresses *)
+Definition sp_univ : list addr := [0%N; 1%N; 2%N; 3%N; 4%N; 5%N].
+Definition sp_calls : list call :=
+  [Mint 3%N 100; Mint 5%N 70; Mint 0%N 40; Transfer [] 3%N 0%N None 10; Transfer [0%N; 1%N; 2%N] 3%N 0%N None 10;
+   Burn [0%N] 3%N 5; Approve [1%N] 3%N 1%N 10 150; Approve [0%N] 0%N 3%N 20 150; TransferFrom [0%N] 3%N 0%N 1%N 5;
+   Transfer [0%N] 5%N 0%N None 1; Transfer [5%N] 5%N 3%N None 20; Transfer [5%N] 0%N 1%N None 1; Transfer [5%N; 0%N] 0%N 1%N None 1;
+   Approve [2%N] 5%N 2%N 30 150; Approve [5%N] 5%N 2%N 30 150; TransferFrom [2%N] 2%N 5%N 3%N 30;
+   Approve [0%N] 0%N 5%N 15 150; TransferFrom [0%N] 5%N 0%N 1%N 5; TransferFrom [5%N] 5%N 0%N 5%N 15; TransferFrom [5%N] 5%N 0%N 1%N 1].
+Example C02_nonvacuous_special_parties :
+  let s := run (ex_cfg FBase) (init 100) sp_calls in
+  map (fun it => is_ok (snd (fst (fst it)))) (t_items (model_trace (ex_cfg FBase) sp_univ 100 sp_calls))
+    = [true; true; true; false; false; false; false; true; false;
+       false; true; false; true; false; true; true; true; false; true; false] /\
+  balance (tk s) 3%N = 150 /\ balance (tk s) 5%N = 35 /\ allowance 100 (tk s) 0%N 3%N = 20 /\ allowance 100 (tk s) 0%N 5%N = 0 /\
+  wf_calls sp_univ sp_calls = true /\
+  check (model_trace (ex_cfg FBase) sp_univ 100 sp_calls) = (0%N, 0%N, 0%N).
+Proof. vm_compute. repeat split. Qed.
+
+(* the asset-side theorem is not vacuous: a deposit pulls the payer's assets, a redeem pays out the vault's *)
+Example C02_nonvacuous_vault_assets :
+  let c := cf FVault 0 in
+  let s1 := run c (init 100) [AssetMint 0%N 1000] in
+  let s2 := run c (init 100) [AssetMint 0%N 1000; VDeposit [0%N] [0%N] 100 0%N 0%N 0%N] in
+  let s3 := run c (init 100) [AssetMint 0%N 1000; VDeposit [0%N] [0%N] 100 0%N 0%N 0%N; VRedeem [0%N] 40 1%N 0%N 0%N] in
+  balance (asset s2) 0%N < balance (asset s1) 0%N /\ balance (asset s3) 3%N < balance (asset s2) 3%N /\
+  balance (asset s3) 3%N = 60 /\ balance (asset s3) 1%N = 40.
+Proof. vm_compute. repeat split; reflexivity. Qed.
+
+(* (13) the monitor has no privileged address either: tokens leaving the token contract's own address (3)
+   without any authorisation, with the signatures of all users, or "spent" by the contract as spender without its
+   authorisation; an allowance appearing on the contract's own address without its authorisation *)
+Definition B4 (a b c d : Z) : list (addr * Z) := [(0%N, a); (1%N, b); (2%N, c); (3%N, d)].
+Definition mint3 : item := (Mint 3%N 100, Ok 0, [EMint 3%N 100], mk 100 100 (B4 0 0 0 100) []).
+Example C02_monitor_rejects_unauthorised_moves_of_the_contracts_own_tokens :
+  c02_why (T [mint3; (Transfer [] 3%N 0%N None 10, Ok 0, [ETransfer 3%N 0%N None 10], mk 100 100 (B4 10 0 0 90) [])]) = (2%N, 1%N) /\
+  c02_why (T [mint3; (Transfer [0%N; 1%N; 2%N] 3%N 0%N None 10, Ok 0, [ETransfer 3%N 0%N None 10], mk 100 100 (B4 10 0 0 90) [])]) = (2%N, 1%N) /\
+  c02_why (T [mint3; (Approve [0%N] 3%N 0%N 10 150, Ok 0, [EApprove 3%N 0%N 10 150], mk 100 100 (B4 0 0 0 100) [((3%N,0%N),((10,150),150))])]) = (2%N, 2%N) /\
+  c02_why (T [mint100; (Approve [0%N] 0%N 3%N 40 150, Ok 0, [EApprove 0%N 3%N 40 150], mk 100 100 (B 100 0 0) [((0%N,3%N),((40,150),150))]);
+              (TransferFrom [] 3%N 0%N 1%N 5, Ok 0, [ETransfer 0%N 1%N None 5], mk 100 100 (B 95 5 0) [((0%N,3%N),((35,150),150))])]) = (3%N, 1%N) /\
+  (* the legitimate ones are accepted: the contract among the authorising addresses (invoker rule) *)
+  c02_why (T [mint3; (Transfer [3%N] 3%N 0%N None 10, Ok 0, [ETransfer 3%N 0%N None 10], mk 100 100 (B4 10 0 0 90) [])]) = (0%N, 0%N).
 Proof. vm_compute. repeat split. Qed.
